@@ -78,6 +78,15 @@ namespace vh
     inline long long vclock_reads() { return g_vclock_reads; }
 }
 
+// src/cli/main.cpp (which holds main()) is not part of the harness; the helpers of it that cli.cpp uses
+int console_width() { return 80; }
+char* const copy_str(const std::string& str)
+{
+    auto dest = new char[str.length() + 1];
+    std::memcpy(dest, str.c_str(), str.length() + 1);
+    return dest;
+}
+
 #include "vh_common.h"
 #include "vh_front.h"
 #include "vh_vm.h"
